@@ -335,7 +335,7 @@ Definition row_check (get : str -> result target) (reserved : list str) (es : li
   : bool * tally :=
   let key := se_name e in
   let c := classify_long reserved es e in
-  (reaches get key key && negb (smem key reserved)
+  (streqb (upper key) key && reaches get key key && negb (smem key reserved)
    && match c with LOk l => reaches get key l | _ => true end,
    class_tally c).
 Definition check_rows (label : str) (get : str -> result target) (reserved : list str) (es : list sentry)
@@ -467,8 +467,12 @@ Record c14_report := mk_report {
   r_digest : N
 }.
 
+(* ANYHL7SEGMENT is a structure wildcard (a choice of bare names), not a segment: it is skipped *)
+Definition real_segments : list (str * sref) :=
+  filter (fun p => negb (streqb (fst p) "ANYHL7SEGMENT")) (t_segments t).
+
 Definition report : c14_report :=
-  let segs := map check_segment (t_segments t) in
+  let segs := map check_segment real_segments in
   let sts := map check_struct (t_structs t) in
   let cmps := map check_component (t_components t) in
   let fps := field_parents in
@@ -482,12 +486,10 @@ Definition report : c14_report :=
             ((fold_left (fun acc x => (acc + snd x)%N) segs 0%N + components_digest) mod 1000000007)%N.
 
 (* the part of the report that must hold of any version; the counts are pinned per version *)
-Definition only_wildcard (l : list str) : bool :=
-  match l with [] => true | [x] => streqb x "ANYHL7SEGMENT" | _ => false end.
+Definition is_nil {A} (l : list A) : bool := match l with [] => true | _ => false end.
 Definition report_fine (r : c14_report) : bool :=
-  only_wildcard (r_bad_segments r)
-  && match r_bad_structs r, r_bad_components r, r_bad_field_parents r with [], [], [] => true | _, _, _ => false end
-  && r_paths_clean r.
+  is_nil (r_bad_segments r) && is_nil (r_bad_structs r) && is_nil (r_bad_components r)
+  && is_nil (r_bad_field_parents r) && r_paths_clean r.
 (* exempt rows = rows whose long name is not claimed to address them (shared / shadowed / reserved),
    at the three levels: fields of segments, components of datatypes, subcomponents of components *)
 Definition exempt_of (l : list N) : N := (nth 2 l 0 + nth 3 l 0 + nth 4 l 0)%N.
